@@ -83,10 +83,12 @@ pub const SMALL_IDS: &[&[u8]] = &[b"1-0", b"1-1", b"2-0", b"2-5", b"3-0", b"3-1"
     b"20-0", b"21-0", b"22-0", b"23-0", b"30-0", b"30-1", b"30-2", b"50-0"];
 pub const ODD_IDS: &[&[u8]] = &[b"0-0", b"-", b"5-", b"-5", b"5", b"abc", b"5-x", b"", b"+", b"(5-0", b"18446744073709551616-0",
     b"18446744073709551617-1", b"5-18446744073709551616", b"1-2-3", b"007-01", b" 5-0", b"\xff-1", b"$", b">", b"0"];
-/// ahead of the wall clock (auto IDs then continue the sequence); never with a sequence
-/// number near u64::MAX: `XADD *` after it panics (finding xadd-seq-overflow)
+/// ahead of the wall clock (auto IDs then continue the sequence), incl. exhausted sequence
+/// numbers (the next auto ID rolls over to the next millisecond) and the last possible ID
+/// (XADD * is then refused) - the former crash class xadd-seq-overflow, fixed by fb507d0
 pub const FUTURE_IDS: &[&[u8]] = &[b"9999999999999-0", b"9999999999999-5", b"9999999999999-6", b"18446744073709551615-0",
-    b"18446744073709551615-7", b"5000000000000-0"];
+    b"18446744073709551615-7", b"5000000000000-0", b"9999999999999-18446744073709551615", b"9999999999999-18446744073709551614",
+    b"18446744073709551615-18446744073709551615", b"18446744073709551615-18446744073709551614", b"18446744073709551614-18446744073709551615"];
 pub const BOUNDS: &[&[u8]] = &[b"-", b"+", b"0-0", b"0-1", b"0-2", b"1-0", b"2-0", b"2-1", b"3-0", b"3-7", b"4-0", b"4-9", b"5-0", b"5-1",
     b"5-2", b"5-3", b"6-0", b"6-5", b"7-0", b"7-3", b"8-0", b"9-0", b"10-0", b"12-0", b"13-0", b"25-0", b"30-1", b"60-0",
     b"1700000000000-0", b"9999999999998-0", b"9999999999999-5", b"18446744073709551615-18446744073709551615",
